@@ -1757,10 +1757,8 @@ fn generate_type_impl(
                             base.modifiers.prepend(Located::none(*modifier));
                         }
                     }
-                    _ => panic!(
-                        "Failed to insert modifiers into declarator: {:?} ->  {:?}",
-                        modifiers, declarator,
-                    ),
+                    // There is no position for the modifiers of the referenced object in a reference declarator
+                    _ => return Err(GenerateError::ComplexTypeBind),
                 }
             }
 
